@@ -21,7 +21,7 @@ PROP_FILES = ["Strengths/Props/C16.lean"]
 GEN_GROUPS = ["CoarsePy", "IndexPy", "Units"]
 RULE = ("grids w,h,d in 1..4 (1-D, 2-D, 3-D; size <= 36), 1..3 environments, cell edge h in {1/2,1,3/2,2,3} with V = h^3 given in a "
         "units system that may differ from the grid's; index maps: random environment-respecting partitions (non-contiguous groups, "
-        "singletons), block maps, identity, one group per environment, maps with more than 257 groups on 384..420-cell grids (group "
+        "singletons), block maps, identity, one group per environment, maps on networks with 300 / 1000 environments whose grouped cells share an environment index >= 257, maps with more than 257 groups on 384..420-cell grids (group "
         "indices computed at run time, groups of index >= 257 with internal faces), each with 0..several dropped cells of several environments; "
         "invalid stream: wrong length, missing index, entry < -1, all dropped, group mixing environments, non-int entries, periodic "
         "grid; states: integers / fractions / zeros given in the system's or in their own quantity unit, random 0/1 chemostat maps, "
@@ -258,6 +258,27 @@ def big_map_case(rng):
     return dict(shape=shape, envs=envs, nenv=2, h=rng.choice(EDGES_H), gsys=usys, vsys=usys, ssys=usys, stsys=usys, ns=1, im=im,
                 kind="many-groups", state=[float(rng.randint(0, 9)) for _ in range(n)], chem=[1 if rng.random() < 0.1 else 0 for _ in range(n)],
                 periodic=None)
+
+
+def many_env_case(rng):
+    """a network with 300 / 1000 environments; the grouped cells share an environment index beyond CPython's small-int cache"""
+    shape = rng.choice([(4, 2, 1), (3, 2, 2), (6, 1, 1), (2, 3, 2)])
+    n = shape[0] * shape[1] * shape[2]
+    nenv = rng.choice([300, 1000])
+    big = rng.sample(range(257, nenv), 3)
+    cuts = sorted(rng.sample(range(1, n), 2))
+    envs = [big[0] if i < cuts[0] else big[1] if i < cuts[1] else big[2] for i in range(n)]
+    style = rng.random()
+    if style < 0.5:
+        im = relabel(list(envs))                                  # one group per environment
+    else:
+        im = relabel([envs[i] * 2 + (i % 2) for i in range(n)])   # two interleaved groups per environment
+    if rng.random() < 0.5:
+        im[rng.randrange(n)] = -1
+        im = relabel(im)
+    usys = ("µm", "s", "molecule")
+    return dict(shape=shape, envs=envs, nenv=nenv, h=rng.choice(EDGES_H), gsys=usys, vsys=usys, ssys=usys, stsys=usys, ns=1, im=im,
+                kind="many-environments", state=[float(rng.randint(0, 9)) for _ in range(n)], chem=[0] * n, periodic=None)
 
 
 def case_json(c):
@@ -560,10 +581,12 @@ def identity_runs(ctx, rng, count):
         while shape[0] * shape[1] * shape[2] > 12:
             shape = gen_grid(rng)
         n = shape[0] * shape[1] * shape[2]
-        nenv = rng.choice([1, 2])
+        nenv = 2 if option == "euler" else rng.choice([1, 2])
         envs = gen_envs(rng, n, nenv)
         nenv = max(envs) + 1
         DA = rng.choice([1, 2]) if diffuse else 0
+        if diffuse and option == "euler" and nenv == 2:
+            DA = {"e0": rng.choice([1, 2]), "e1": rng.choice([0.5, 3])}      # different non-zero coefficients in adjacent environments
         # script units: the default, or (for the second Euler slot of the plan) a system in which a diffusion coefficient of
         # about 1 µm2/s becomes a very small number (space m / km, time s / µs / h)
         susys = None
@@ -599,7 +622,14 @@ def identity_runs(ctx, rng, count):
         ctx.count("identity_script_units_" + ("default" if susys is None else "_".join(susys)))
         ctx.count("identity_with_chemostats" if any(chem) else "identity_without_chemostats")
         ctx.count("identity_policy_" + policy)
-        ok, detail = identity_compare(system, option, ts, seed, dt, diffuse, policy, susys)
+        history = None
+        if option == "euler" and policy == "on_t_sample" and n >= 2:
+            # same network on a longer 1-D grid; the first three cells form one group: n groups of volumes 3, 1, 1, …
+            hd = {"network": d["network"], "space": {"w": n + 2, "h": 1, "d": 1, "cell_env": [envs[0]] * 3 + list(envs[1:]), "cell_vol": 1}}
+            history = {"system": hd, "map": [0, 0, 0] + list(range(1, n))}
+            case["identity"]["history"] = history
+            ctx.count("identity_after_a_coarse_run_with_unequal_volumes")
+        ok, detail = identity_compare(system, option, ts, seed, dt, diffuse, policy, susys, history)
         ctx.case(("identity", option, diffuse, policy, shape, tuple(envs), seed), nontrivial=n > 1)
         ctx.count("identity_%s_%s" % (option, "diffusion" if diffuse else "reaction_only"))
         if not ok:
@@ -627,8 +657,16 @@ def unsafe_graph(system, im):
     return None
 
 
-def identity_compare(system, option, ts, seed, dt, diffuse, policy="on_t_sample", susys=None):
-    from strengths import simulate, UnitValue, UnitArray, UnitsSystem
+def identity_compare(system, option, ts, seed, dt, diffuse, policy="on_t_sample", susys=None, history=None):
+    from strengths import simulate, UnitValue, UnitArray, UnitsSystem, rdsystem_from_dict
+    if history:
+        # an earlier simulation in the same process: a coarse-grained run whose groups have unequal volumes, with as many nodes
+        # as the identity-map run that follows (anything the engine caches per process is then stale)
+        try:
+            hsys = rdsystem_from_dict(history["system"])
+            simulate(hsys, t_sample=[0.0, 0.125], engine=common.load_engine(option), time_step=1 / 64, rng_seed=seed, cgmap=list(history["map"]))
+        except Exception as e:  # noqa
+            return False, {"why": "the earlier coarse-grained simulation raised %r" % (e,)}
     kw = {}
     if susys:
         # times stay what they were (given with their unit); only the units system the script hands to the engine changes
@@ -784,7 +822,7 @@ def run(ctx):
                      "fine_edges_are_shared_faces, uncg_even / uncg_dropped_zero / uncg_group_total, identity_map, identity_state, generated "
                      "subscripts / tests / statement inventory.  'simulating with the identity map reproduces the plain simulation' rests on "
                      "identity_map + C15 (grid = its graph) on the theorem side and is run on the three rebuilt engines here")
-    n_valid = ctx.n(280, 8000)
+    n_valid = ctx.n(240, 8000)
     n_invalid = ctx.n(100, 2500)
     cases = [gen_case(rng) for _ in range(n_valid)] + [gen_case(rng, invalid=True) for _ in range(n_invalid)] + \
             [gen_case(rng, periodic=True) for _ in range(ctx.n(6, 100))]
@@ -795,6 +833,8 @@ def run(ctx):
         cases.insert(0, dict(base, im=im))
     for _ in range(ctx.n(2, 12)):
         cases.insert(rng.randrange(len(cases)), big_map_case(rng))
+    for _ in range(ctx.n(3, 20)):
+        cases.insert(rng.randrange(len(cases)), many_env_case(rng))
     batch = 400
     for b0 in range(0, len(cases), batch):
         chunk = cases[b0:b0 + batch]
@@ -946,7 +986,7 @@ def replay(ctx, rec):
         if d.get("chem"):
             system.chemostats = list(d["chem"])
         ok, det = identity_compare(system, d["option"], d["t_sample"], d["seed"], d["time_step"], d.get("diffuse", True),
-                                   d.get("policy", "on_t_sample"), d.get("script_units"))
+                                   d.get("policy", "on_t_sample"), d.get("script_units"), d.get("history"))
         return ok, det
     c = dict(case["sys"])
     c["h"] = Fraction(c["h"])
